@@ -765,12 +765,15 @@ func (m *Manager) sessionOffline(id string, state sessionOfflineState) {
 					exp.start()
 				}
 			} else {
+				if !state.durable {
+					// the session ends with its connection: a later CONNECT (a take-over in progress
+					// included, which keeps the container) must not find anything of it
+					_ = m.persistence.Delete([]byte(id))
+				}
+
 				if cont.removable {
 					m.sessions.Delete(id)
 					m.sessionsCount.Done()
-					if !state.durable {
-						_ = m.persistence.Delete([]byte(id))
-					}
 					cont.removed = true
 				}
 			}
